@@ -27,10 +27,12 @@ def _wchoice(rng: random.Random, pairs: list[tuple[Any, float]]) -> Any:
 
 
 def _pop_inter(rng: random.Random, name: str, tier: str) -> dict:
-    pol = _wchoice(rng, [("uniform", 0.7), ("pct", 0.3)])
+    pol = _wchoice(rng, [("uniform", 0.5), ("pct", 0.25), ("hot", 0.25)])
     pop: dict[str, Any] = {"name": name, "policy": pol}
     if pol == "uniform":
         pop["p"] = rng.choice((0.003, 0.02, 0.1, 0.3))
+    elif pol == "hot":
+        pop["p"] = rng.choice((0.003, 0.02))
     else:
         pop["pct_d"] = rng.randint(1, 4)
     pop["trace_nx"] = tier == "thorough" and rng.random() < 0.3
